@@ -199,7 +199,7 @@ def observe(side):
     w = side.world
     ids = list(side.ids) + ['never']
     out = {'entities': sorted(map(repr, w.entities)),
-           'processors': [(type(p).__name__, getattr(p, 'tag', None)) for p in w.processors],
+           'processors': [(type(p).__name__, getattr(p, 'tag', None), p.priority) for p in w.processors],
            'log': list(side.log)}
     for e in ids:
         out['e:%r' % (e,)] = {
